@@ -202,7 +202,7 @@ def make_inputs(rng, tier):
             out.append(("%s/d%d/%s/%s/rmax-%s/%s" % (kind, d, dtname, src, rmode, shp), A, shp, N, None, eps, rmax))
         # operator shapes
         if d <= 3:
-            for rep in range(2 if tier == "quick" else 5):
+            for rep in range(6 if tier == "quick" else 16):
                 dtname = ["f64", "c128"][rep % 2]
                 dt = DTYPES[dtname]
                 M = rand_modes(rng, d, 1, 3, distinct=False)
@@ -213,7 +213,24 @@ def make_inputs(rng, tier):
                     g = tn.Generator().manual_seed(rng.randrange(1 << 30))
                     A = A + 0.05 * tn.randn(A.shape, generator=g, dtype=tn.float64).to(dt)
                 eps = rng.choice([1e-10, 1e-3, 0.1])
-                out.append(("operator/d%d/%s" % (d, dtname), A, "tuples", N, M, eps, None))
+                src = rng.choice(["torch", "numpy"])
+                rmode = rng.choice(["none", "int-binding", "list", "int-big"])
+                rmax = None if rmode == "none" else 60 if rmode == "int-big" else rng.choice([1, 2]) if rmode == "int-binding" else [1] + [rng.randint(1, 3) for _ in range(d - 1)] + [1]
+                out.append(("operator/d%d/%s/%s/rmax-%s" % (d, dtname, src, rmode), A, "tuples", N, M, eps, rmax))
+    # systematic: every (source kind) x (binding rmax form) for operators and for tensors with a prescribed shape — each
+    # constructor branch of TT.__init__ must honour rmax
+    for d in (2, 3):
+        for src in ("torch", "numpy"):
+            for rform in ("int", "list"):
+                M = [2] * d; N = [3] * d
+                g = tn.Generator().manual_seed(rng.randrange(1 << 30))
+                A = tn.randn(M + N, generator=g, dtype=tn.float64)
+                rmax = 1 if rform == "int" else [1] + [1 + (k % 2) for k in range(d - 1)] + [1]
+                out.append(("operator-rmax/d%d/f64/%s/rmax-%s-binding" % (d, src, rform), A, "tuples", N, M, 1e-10, rmax))
+                B = tn.randn([3] * (d + 1), generator=g, dtype=tn.float64)
+                rmax2 = 2 if rform == "int" else [1] + [1 + (k % 2) for k in range(d)] + [1]
+                out.append(("tensor-rmax/d%d/f64/%s/rmax-%s-binding/list" % (d + 1, src, rform), B, "list", [3] * (d + 1), None, 1e-10, rmax2))
+                out.append(("tensor-rmax/d%d/f64/%s/rmax-%s-binding/deduce" % (d + 1, src, rform), B, "deduce", [3] * (d + 1), None, 1e-10, rmax2))
     # engineered exact ties
     for n, eps in ((4, 0.5), (9, 1.0 / 3.0 * 0 + 0.5), (16, 0.5), (16, 0.25)):
         out.append(("tie/eye%d" % n, tn.eye(n, dtype=tn.float64), "deduce", [n, n], None, eps, None))
